@@ -31,7 +31,25 @@ import (
 
 func init() {
 	runners["C17"] = func(r *RunCtx) error { return c17Run(r, "C17") }
-	runners["C01"] = func(r *RunCtx) error { return c17Run(r, "C01") }
+	runners["C01"] = func(r *RunCtx) error {
+		if err := c17Run(r, "C01"); err != nil {
+			return err
+		}
+		// C01 also admits prover status through "a completed attestation quorum": the quorum logic of Attest (every order
+		// and multiset of signatures for every (FormSize, Min)) is exercised here too, with the C14 model and monitors
+		r.Group("hist14", "From JK Require Import Model.Forms Corr.C14.", "c14_case", "c14_ok")
+		c14GroupOverride = "hist14"
+		defer func() { c14GroupOverride = "" }()
+		if err := c14Exhaustive(r, r.Rng.Fork()); err != nil {
+			return err
+		}
+		for sc := 0; sc < r.Scale(45, 300); sc++ { // form requests over small and large provider populations
+			if err := c14RandomHistory(r, r.Rng.Fork(), sc); err != nil {
+				return err
+			}
+		}
+		return nil
+	}
 }
 
 // ---------------------------------------------------------------- string table
